@@ -248,6 +248,20 @@ func verifFrame(m rpcMessage, err error) (rpcMessage, error) {
 	return m, err
 }
 
+// verifLock: a locked section of the named function begins (trace only).
+func verifLock(fn string) {
+	s := verifCur()
+	if s == nil {
+		return
+	}
+	id := goid()
+	s.mu.Lock()
+	if g, ok := s.gs[id]; ok && !s.free {
+		s.tlog = append(s.tlog, fmt.Sprintf("L %d %s %s", g.ep, g.name, fn))
+	}
+	s.mu.Unlock()
+}
+
 // verifTrace appends a trace-only line (not part of the observable history).
 func verifTrace(format string, a ...interface{}) {
 	s := verifCur()
